@@ -1862,6 +1862,11 @@ def replace_pad_by_hw_pad(op: Operation, arch, nng) -> Operation:
         pad_op = op.ifm.ops[0]
         if pad_op.type != Op.Pad or not pad_op.run_on_npu:
             return op
+        if op.read_offsets[0] is not None or op.read_shapes[0] is not None:
+            # The operator reads a window given in coordinates of the PAD output, possibly through a reshaped view of it
+            # (e.g. the depthwise convolutions that a MEAN is converted to): the PAD cannot be replaced by padding of
+            # the operator, nor can the operator's IFM shape be replaced by that of the PAD's input
+            return op
         if pad_op.ifm.dtype != pad_op.ofm.dtype or not check_quantized_tens_scaling_equal(pad_op.ofm, pad_op.ifm):
             return op
         top, left, bottom, right = get_pad_values_from_input(pad_op.inputs[1].values)
